@@ -282,9 +282,24 @@ static int run_rand(int argc, char **argv) {
   return 0;
 }
 
+// isa_step seqs <from> <to> <stride> <maxsteps> <out.ndjson> <scratchdir>: the enumerated short sequences of progen.hpp
+static int run_seqs(int argc, char **argv) {
+  long from = atol(argv[2]), to = atol(argv[3]), stride = atol(argv[4]), maxsteps = atol(argv[5]);
+  FILE *out = fopen(argv[6], "w");
+  if (chdir(argv[7]) != 0) return 2;
+  if (to > SEQ_TOTAL) to = SEQ_TOTAL;
+  for (long i = from; i < to; i += stride) {
+    GenProg g = seq_program(i);
+    emit_run(out, "seq" + std::to_string(i), g.img, g.input, maxsteps, "");
+  }
+  fclose(out);
+  return 0;
+}
+
 int main(int argc, char **argv) {
   if (argc < 2) return 2;
   std::string m = argv[1];
+  if (m == "seqs" && argc >= 8) return run_seqs(argc, argv);
   if (m == "grid" && argc >= 6) return grid(argc, argv);
   if (m == "run" && argc >= 7) return run_bin(argc, argv);
   if (m == "rand" && argc >= 7) return run_rand(argc, argv);
